@@ -21,6 +21,7 @@ struct Recorder {
   bool with_module_tree = true;   // include a walk of the module object in IMPORTED lines
   bool with_match_data = true;
   bool skip_too_slow = true;      // TOO_SLOW_SCANNING is an advisory, not part of equality oracles
+  int too_slow_reply = CALLBACK_CONTINUE;   // reply to it when skipped
   int too_slow = 0, too_many = 0;
   std::function<int(Recorder&, YR_SCAN_CONTEXT*, int, void*)> hook;   // may override the reply (return -1: no override)
   const void* module_data = nullptr; size_t module_data_size = 0; std::string module_data_for;  // handed over at IMPORT_MODULE
